@@ -66,6 +66,7 @@ type Obligation struct {
 	exec    *Exec
 	anc     map[string]bool
 	NoSlice bool
+	Replay  *ReplayPoint // post obligations: result terms and heap at the return (counterexample replay)
 }
 
 type ctlFrame struct {
